@@ -23,6 +23,7 @@ type StreamCfg struct {
 	NoDupKeys  bool // keys within one object are distinct
 	NoTypedAnn bool // never announce a BaseType other than AnyType
 	ExtHeavy   bool // over-weight extended events
+	ExtOnly    bool // the value is a single extended event
 }
 
 type streamGen struct {
@@ -46,6 +47,10 @@ func Stream(t *rapid.T, cfg StreamCfg) ([]model.Ev, map[string]bool) {
 	if cfg.Deep && rapid.IntRange(0, 39).Draw(t, "deepw") == 39 {
 		g.Feat["deep"] = true
 		g.deepChain(t, &out)
+		return out, g.Feat
+	}
+	if cfg.ExtOnly {
+		g.container(t, 0, &out, 2+rapid.IntRange(0, 1).Draw(t, "extk"))
 		return out, g.Feat
 	}
 	if cfg.Container {
